@@ -216,6 +216,23 @@ def path_contract(tier, seed):
                 bad('etree_iter_paths (absolute): the path cannot be evaluated', f'{type(ex).__name__}: {str(ex)[:100]}', tree=repr(t)[:300], lib=lib)
             if len({p for _, p in pairs}) != len(pairs):
                 bad('etree_iter_paths: two elements share one path', repr([p for _, p in pairs])[:200], tree=repr(t)[:300], lib=lib)
+    # documents built by fn:parse-xml-fragment: top-level text, comment and PI nodes are children of the document node
+    for frag in ('a<x/>b<!--c--><?p d?>', '<x/><y>t</y>tail', 'only text', '<!--c1--><!--c2--><z k="v"/>', '<?p a?><?q b?><?p c?>'):
+        n += 1
+        try:
+            doc = XPath31Parser().parse('parse-xml-fragment($t)').evaluate(XPathContext(root=get_node_tree(T.ET.XML('<unrelated/>')), variables={'t': frag}))
+            _, dnodes = actual_nodes(doc)
+            for node in dnodes:
+                p = node.path
+                got = _select(doc, p)
+                if len(got) != 1 or got[0] is not node:
+                    bad(f'{type(node).__name__.replace("Etree", "")} of a parse-xml-fragment document: the path does not select exactly the node', f'{p!r} selects {got!r:.160}',
+                        tree=frag, lib='et')
+                p2 = XPath31Parser().parse('path($n)').evaluate(XPathContext(root=doc, variables={'n': node}))
+                if p2 != p:
+                    bad('fn:path differs from the path property on a parse-xml-fragment document', f'{p2!r} vs {p!r}', tree=frag, lib='et')
+        except Exception as e:      # noqa
+            bad('parse-xml-fragment document: paths cannot be produced or evaluated', f'{type(e).__name__}: {str(e)[:120]}', tree=frag, lib='et')
     # nodes built outside any tree: the path is still an XPath expression
     from elementpath.xpath_nodes import NamespaceNode, ProcessingInstructionNode, CommentNode, TextNode, AttributeNode
     for label, mk in (('namespace', lambda: NamespaceNode('p', 'urn:p')), ('default namespace', lambda: NamespaceNode(None, 'urn:p')),
